@@ -18,6 +18,7 @@ second point: the correspondence run shows `synced` / `skipped` where the model 
 import Datacake.Model.Cluster
 import Datacake.Lemmas.ClusterSets
 import Datacake.Props.C01d
+import Datacake.Props.C01e
 
 namespace Datacake.C01d
 open Datacake.Lww Datacake.OrSwot Datacake.Keyspace Datacake.Storage Datacake.Cluster Datacake.C01 Datacake.C05
@@ -139,6 +140,26 @@ theorem fetchFail_then_not_skipped (c : Cluster) (j i : Nat) (h : j < c.nodes.le
   show ((getNode (repairFetchFail c j i).1 j).tracker.getD i none == some (getNode c' i).change) = false ∧ _
   rw [ht, hpeer, hc.1]
   exact ⟨htr, hc.2⟩
+
+/-- **fetchFail_good**: set and store of every node still agree (C02's `Good`: set = store, exact
+cut-offs) after an exchange whose fetch was refused - the half that ran is a removal request like any
+other. -/
+theorem fetchFail_good (c : Cluster) (j i : Nat) (h : j < c.nodes.length)
+    (hf : (getNode c j).failNext = false) (hg : NodesGood c)
+    (hex : (getNode c i).exists_ = true)
+    (htr : ((getNode c j).tracker.getD i none == some (getNode c i).change) = false)
+    (hfetch : (diff (getNode (touch c j) j).ks.set (getNode c i).ks.set).1.isEmpty = false)
+    (hvr : ∀ p ∈ (diff (absSet c j) (absSet c i)).2, ValidStamp p.2) :
+    NodesGood (repairFetchFail c j i).1 := by
+  unfold repairFetchFail
+  simp only [hex, Bool.not_true, Bool.false_eq_true, if_false, htr, hfetch]
+  have hl0 : j < (touch c j).nodes.length := by rw [touch_length]; exact h
+  have hf0 : (getNode (touch c j) j).failNext = false := by rw [touch_failNext]; exact hf
+  have hg0 : NodesGood (touch c j) := nodesGood_of_ks c _ (fun x => touch_ks c j x) hg
+  have hs0 : (getNode (touch c j) j).ks.set = absSet c j := by unfold absSet; rw [touch_ks]
+  have hpi : (getNode c i).ks.set = absSet c i := rfl
+  rw [hs0, hpi]
+  exact applyRemovals_good (touch c j) j _ hl0 hf0 hg0 (diff_nodup (absSet c j) (absSet c i)).2 hvr
 
 /-! ### non-vacuity: two nodes, node 1 holds a document node 0 lacks; node 1 refuses the fetch -/
 
